@@ -1,6 +1,5 @@
 import Mixin.Prelude.Proto
-import Mixin.Model.Consensus
-import Mixin.Facts.Generated
+import Mixin.Model.ConsensusCodes
 /-! Line-protocol driver for the consensus-chain model (C28).
 
 Lines are `op args… | oracle…`: the part before `|` is what the Go harness executes, the
@@ -10,24 +9,7 @@ namespace Mixin.Driver.Consensus
 open Mixin.Proto Mixin.Consensus
 open Mixin.Facts
 
-def codes : Codes :=
-  { tScript := Gen.common_TransactionTypeScript
-    tMint := Gen.common_TransactionTypeMint
-    tDeposit := Gen.common_TransactionTypeDeposit
-    tWithdrawalSubmit := Gen.common_TransactionTypeWithdrawalSubmit
-    tWithdrawalClaim := Gen.common_TransactionTypeWithdrawalClaim
-    tNodePledge := Gen.common_TransactionTypeNodePledge
-    tNodeAccept := Gen.common_TransactionTypeNodeAccept
-    tNodeRemove := Gen.common_TransactionTypeNodeRemove
-    tNodeCancel := Gen.common_TransactionTypeNodeCancel
-    tCustodianUpdate := Gen.common_TransactionTypeCustodianUpdateNodes
-    tCustodianSlash := Gen.common_TransactionTypeCustodianSlashNodes
-    oNodePledge := Gen.common_OutputTypeNodePledge
-    oNodeCancel := Gen.common_OutputTypeNodeCancel
-    oNodeAccept := Gen.common_OutputTypeNodeAccept
-    oNodeRemove := Gen.common_OutputTypeNodeRemove
-    oCustodianUpdate := Gen.common_OutputTypeCustodianUpdateNodes
-    oCustodianSlash := Gen.common_OutputTypeCustodianSlashNodes }
+def codes : Codes := realCodes
 
 structure DState where
   st : Store
